@@ -9,7 +9,7 @@ from ..locks import regions
 from ..model import AnchorError
 from ..flow import cannot_raise
 from ..mutate import B, M
-from .c03 import fetch_guard_rules
+from .c03 import fetch_guard_rules, fetcher_unsubscribe_rules
 from .c04 import param_lookup_rule
 
 PROP = 'C02'
@@ -104,6 +104,26 @@ def check(ctx):
         cs = [c for c in walk_own(f.node) if isinstance(c, ast.Call) and norm(c.func) == api]
         ok = len(cs) == 1 and norm(cs[0].args[0]) == 'self.' + nxt and not any(method_call(c, 'call') and norm(c.func.value) in ('self.connected', 'self.fully_connected') for c in walk_own(f.node))
         ctx.inst('R2', f, 'continuation:' + fn, ok, '%s must hand %s to %s and signal nothing itself' % (fn, nxt, api))
+    # every connection downloads the log TOC: the "first reset acknowledgement of this connection" guard in the log handler is re-armed
+    # by Log.refresh_toc before the reset request goes out (a flag armed only in the constructor lets the second connection stop after
+    # link_established)
+    LOGP = 'cflib/crazyflie/log.py'
+    lcb = m.func(LOGP, 'Log._new_packet_cb')
+    glcb = cfg_of(lcb)
+    mkf = [n for n, c in glcb.find(lambda q: isinstance(q, ast.Call) and dotted(q.func) == 'TocFetcher')]
+    rft = m.func(LOGP, 'Log.refresh_toc')
+    grft = cfg_of(rft)
+    rst = [n for n, c in grft.find(lambda q: method_call(q, '_send_reset_packet'))]
+    armed = {norm(n.ast.targets[0]) for n in grft.nodes if n.kind == 'stmt' and isinstance(n.ast, ast.Assign) and rst and grft.dominates(n, rst[0])}
+    guards = set()
+    for n in mkf:
+        for f_ in glcb.facts_at(n):
+            for x in ast.walk(f_.node):
+                if isinstance(x, ast.Attribute) and isinstance(x.value, ast.Name) and x.value.id == 'self' and isinstance(x.ctx, ast.Load) and \
+                        any(isinstance(t, ast.Attribute) and norm(t) == norm(x) for n2 in glcb.nodes if n2.kind == 'stmt' and isinstance(n2.ast, ast.Assign) for t in n2.ast.targets):
+                    guards.add(norm(x))             # state the handler itself flips (the once-per-connection latch)
+    ctx.inst('R2', lcb, 'log-toc-guard-rearmed-per-connection', len(mkf) == 1 and bool(guards) and guards <= armed,
+             'latches read by the guard of the TOC download: %s; re-armed by refresh_toc before the reset request: %s' % (sorted(guards), sorted(armed)))
     pt = K.method('_param_toc_updated_cb')
     seq = [norm(s.value) for s in pt.node.body if isinstance(s, ast.Expr) and isinstance(s.value, ast.Call)]
     ok = 'self.connected.call(self.link_uri)' in seq and 'self.param.request_update_of_all_params()' in seq and \
@@ -112,6 +132,7 @@ def check(ctx):
     reg = [c for c in walk_own(K.method('__init__').node) if method_call(c, 'add_callback') and norm(c.func.value) == 'self.param.all_updated' and [norm(a) for a in c.args] == ['self._all_parameters_updated']]
     ctx.inst('R2', K.method('__init__'), 'fully_connected-on-all-updated', len(reg) == 1, '_all_parameters_updated is registered on param.all_updated')
     param_lookup_rule(ctx, 'R2')
+    fetcher_unsubscribe_rules(ctx, 'R2')     # an aborted attempt leaves no fetcher behind that would signal `connected` again (F-02f)
     ic = K.method('_check_for_initial_packet_cb')
     body = [norm(s) for s in effective(ic.node.body)]
     ctx.inst('R2', ic, 'first-packet', body == ['self.state = State.CONNECTED', 'self.link_established.call(self.link_uri)', 'self.packet_received.remove_callback(self._check_for_initial_packet_cb)'],
